@@ -102,8 +102,8 @@ func genC34(seed uint64, tier string) any {
 		for m := 0; m < nm; m++ {
 			t := c34Task{Side: side, Kind: "misc"}
 			for k := r.Range(1, 6); k > 0; k-- {
-				op := []string{"state", "state", "handshake", "setdl", "setrdl", "setwdl", "sleep", "closewrite", "close", "hello_request", "key_update_kill"}[r.Pick([]int{4, 4, 3, 2, 2, 2, 3, 1, 1, 2, 4})]
-				if op == "hello_request" && (side != 1 || sc.Version == vTLS13) || op == "key_update_kill" && sc.Version != vTLS13 {
+				op := []string{"state", "state", "handshake", "setdl", "setrdl", "setwdl", "sleep", "closewrite", "close", "hello_request", "key_update_kill", "key_update_raw"}[r.Pick([]int{4, 4, 3, 2, 2, 2, 3, 1, 1, 2, 3, 3})]
+				if op == "hello_request" && (side != 1 || sc.Version == vTLS13) || (op == "key_update_kill" || op == "key_update_raw") && sc.Version != vTLS13 {
 					op = "handshake"
 				}
 				t.Ops = append(t.Ops, c34Op{Op: op, DelayMs: []int{1, 20, 300, 3000}[r.Intn(4)]})
@@ -429,6 +429,16 @@ func execC34(t *testing.T, scAny any, keepLog bool) *Outcome {
 							nets[tk.Side].Kill(false)
 							o.count("fault.key_update_then_transport_closed", 1)
 						}
+					case "key_update_raw":
+						// TLS 1.3: a KeyUpdate(update_requested) sent without moving on to the next sending key (a
+						// misbehaving peer): the other side answers and switches keys while its writers are busy; whatever
+						// this side sends afterwards no longer decrypts there
+						if sd.conn.ConnectionState().HandshakeComplete {
+							markAbrupt(sides[0])
+							markAbrupt(sides[1])
+							sd.conn.WriteRecord(22, []byte{24, 0, 0, 1, 1})
+							o.count("fault.key_update_without_own_key_change", 1)
+						}
 					case "closewrite":
 						if sd.closedAt < 0 {
 							sd.closedAt = len(sd.writes)
@@ -590,7 +600,7 @@ func init() {
 		Real:   []string{"tls.Conn Read/Write/Handshake/ConnectionState/SetDeadline/SetReadDeadline/SetWriteDeadline/CloseWrite/Close with their real locking (handshakeMutex, in/out halfConn mutexes, activeCall, handshakeStatus, Config.mutex)"},
 		Stub:   []string{"sync.Mutex/RWMutex and sync/atomic of package tls are replaced by the simulator-aware shim (same semantics, scheduling points added)", "transport", "clock", "entropy"},
 		Assume: []string{"one reader per direction (the order of bytes between concurrent Reads is not defined by the API)", "every blocking call has a deadline, as the property's precondition says", "interleavings are controlled at lock/atomic/transport granularity, not between plain memory accesses"},
-		FaultKinds: []string{"probe.lock_ops", "probe.contended_lock_ops", "probe.multi_enabled_steps", "probe.clean_eof_streams", "fault.hello_request_sent", "fault.key_update_then_transport_closed", "net.write_blocked_on_window", "net.read_deadline_expired", "net.write_deadline_expired", "net.short_read",
+		FaultKinds: []string{"probe.lock_ops", "probe.contended_lock_ops", "probe.multi_enabled_steps", "probe.clean_eof_streams", "fault.hello_request_sent", "fault.key_update_then_transport_closed", "fault.key_update_without_own_key_change", "net.write_blocked_on_window", "net.read_deadline_expired", "net.write_deadline_expired", "net.short_read",
 			"probe.raceB_runs", "probe.raceB_cancelled_handshakes"},
 		NotInjected: "wire corruption is C25/C32; here the adversary is the schedule. No storage.",
 		Gen:         genC34, New: func() any { return &c34Scenario{} }, Exec: execC34, Shrink: shrinkC34,
